@@ -53,8 +53,15 @@ def cell_to_string(
             if "combine" in var_context:
                 coord_names = [var["name"]
                                for var in var_context["combine"]]
-            else:
+            elif len(cell_edges) == 1:
                 coord_names = [var_context["name"]]
+            else:
+                # a multidimensional variable that is not a Combine,
+                # like Variable("xy", lambda ev: (ev.x, ev.y))
+                coord_names = [
+                    "{}{}".format(var_context["name"], ind)
+                    for ind in range(len(cell_edges))
+                ]
     if len(cell_edges) != len(coord_names):
         raise lena.core.LenaValueError(
             "coord_names must have same length as cell_edges, "
